@@ -33,6 +33,7 @@ func init() {
 func c05Values() []T {
 	return []T{
 		I(0), I(1), I(2), I(63), I(64), I(65), I(9223372036854775807), Un("-", I(1)),
+		Bin("<<", I(1), I(63)), Un("-", I(9223372036854775807)), // the smallest int and its neighbour
 		F(0.0), F(1.5), B(true), S(""), S("ab"), S("naïve"), L(), L(I(1), I(2)), N("id"), N("u"),
 	}
 }
